@@ -610,7 +610,9 @@ namespace vf
       };
       std::map< std::tuple< int, std::size_t, std::size_t >, mrun > models;
       auto model_for = [ & ]( const cfg_entry& cf ) -> mrun& {
-         const int which = ( ( !cf.have_act || cf.scopes ) ? 2 : cf.actions ? 0 : 1 ) + ( cf.mustif ? 10 : 0 );
+         // 0 family act / actions on, 1 family act / actions off, 2 actions ignored (C13: attached switches are checked by the scope oracle),
+         // 3 parse started with tao::pegtl::nothing (actions fire only below an action<> rule)
+         const int which = ( cf.scopes ? 2 : !cf.have_act ? ( cf.actions ? 3 : 4 ) : cf.actions ? 0 : 1 ) + ( cf.mustif ? 10 : 0 );
          const auto key = std::make_tuple( which, cf.byte0, cf.column0 );
          auto it = models.find( key );
          if( it != models.end() ) {
@@ -623,9 +625,10 @@ namespace vf
          r.mm->byte0 = long( cf.byte0 );
          r.mm->col0 = long( cf.column0 );
          r.mm->ignore_actions = ( which % 10 == 2 );
+         r.mm->top_fam = ( which % 10 >= 3 ) ? -1 : 0;
          r.mm->use_must_if = cf.mustif;
          r.mm->build_tree = !ge.sel_modes.empty();
-         r.want = r.mm->run_cfg( which % 10 != 1 );
+         r.want = r.mm->run_cfg( which % 10 != 1 && which % 10 != 4 );
          r.ev = r.mm->events;
          return r;
       };
@@ -664,10 +667,6 @@ namespace vf
          m.lazy = cf.lazy;
          m.slots = c.slots;
          m.as = c.as;
-         if( !cf.have_act ) {
-            m.as.veto_mod = 0;
-            m.as.throw_mod = 0;
-         }
          const pm::outcome& want = mr.want;
          const impl_result got = cf.fn( pb );
          R.eval();
@@ -749,15 +748,15 @@ namespace vf
                const std::vector< pm::event >& wev = mr.ev;
                bool same = wev.size() == m.events.size();
                for( std::size_t i = 0; same && i < wev.size(); ++i ) {
-                  same = wev[ i ].node == m.events[ i ].node && wev[ i ].begin == m.events[ i ].begin && wev[ i ].end == m.events[ i ].end;
+                  same = wev[ i ].node == m.events[ i ].node && wev[ i ].begin == m.events[ i ].begin && wev[ i ].end == m.events[ i ].end && wev[ i ].fam == m.events[ i ].fam;
                }
                if( !same ) {
                   std::string a, b;
                   for( const auto& e : m.events ) {
-                     a += g.nodes[ std::size_t( e.node ) ].tname + "[" + std::to_string( e.begin ) + "," + std::to_string( e.end ) + ") ";
+                     a += g.nodes[ std::size_t( e.node ) ].tname + ( e.fam ? "/act1" : "" ) + "[" + std::to_string( e.begin ) + "," + std::to_string( e.end ) + ") ";
                   }
                   for( const auto& e : wev ) {
-                     b += g.nodes[ std::size_t( e.node ) ].tname + "[" + std::to_string( e.begin ) + "," + std::to_string( e.end ) + ") ";
+                     b += g.nodes[ std::size_t( e.node ) ].tname + ( e.fam ? "/act1" : "" ) + "[" + std::to_string( e.begin ) + "," + std::to_string( e.end ) + ") ";
                   }
                   vs.push_back( { "C04", "action-trace", "surviving action invocations: " + a + "; derivation: " + b } );
                }
